@@ -94,12 +94,18 @@ TrFrameEnd ==
                              /\ Ev.q[j].a \in fr[Ev.idx].asserted
                              /\ CandWitness(tt, Given(Ev.idx) \cup {Ev.q[j].na}, <<>>, Ev.q[j].h) } })
 
+\* the engine's answer for what it was given; "unsat" although the assertions (as written) have a model: the formula
+\* handed over is not equisatisfiable with them
+TrCheck ==
+  /\ Ev.e = "check" /\ Step /\ UNCHANGED <<db, tt, dom, run, fr, gv>>
+  /\ Note(If(Ev.mon /\ Ev.ret = "unsat" /\ CandWitness(tt, SetOf(Ev.all), <<>>, Ev.h),
+             V("C13", [m |-> "the engine refuted its input although the asserted formulas have a model"])))
 TrOther ==
-  /\ Ev.e \in {"check", "Exit"} /\ Step /\ UNCHANGED <<db, tt, dom, run, fr, gv>> /\ Note({})
+  /\ Ev.e \in {"Exit"} /\ Step /\ UNCHANGED <<db, tt, dom, run, fr, gv>> /\ Note({})
 
 Next == /\ l <= Len(Tr)
         /\ \/ TrFam \/ TrRun \/ TrInput \/ TrLearn \/ TrTheory \/ TrRootDed \/ TrFarkas
-           \/ TrFrame \/ TrGive \/ TrFrameEnd \/ TrOther
+           \/ TrFrame \/ TrGive \/ TrFrameEnd \/ TrCheck \/ TrOther
 Spec == Init /\ [][Next]_vars
 Accepted ==
   IF TLCGet("stats").diameter = Len(Tr) + 1 THEN TRUE
